@@ -48,11 +48,11 @@ CHECKS = {
             "Position-dependent payloads of lengths around (thorough: at) every multiple of the segment size for six max-APDU sizes, all 64 window pairs, transfers of 255..520 segments, and every single drop/duplicate/late-arrival at every frame index of 2-, 3- and 5-segment exchanges in either or both directions are run between real stacks; whatever is delivered must be octet-identical to what was sent (else an abort), every frame on the LAN is decoded independently and must respect sequence numbering, more-follows, proposed window and the acknowledged window, and any single fault must still end in the ack with the exact payload.",
             "Segment sizes follow the library's own slicing (limits are C12); the window rule counts every segment-ack offered to the LAN; 'late arrival' means a delay below the segment timeout."),
     "C12": ("exploration",
-            "capability cross-product enumeration + Hypothesis-drawn capability tuples with boundary payloads on real client/server stacks; every LAN frame judged through independent NPCI/APCI decoders",
-            "Max-APDU pairs x segmentation-support pairs x max-segments, windows, with and without I-Am knowledge, crossed with payload lengths at every boundary the pair implies, are run between real stacks; every frame on the LAN is decoded independently and must respect the max-APDU / segmented-response-accepted / max-segments announced in the request (responses) or in the I-Am (requests); a message that does not fit must end in an abort with a fitting reason, never silence; window fields must stay in 1..127 and within the peer's proposal, also on the negative-ack path (single drop/duplicate faults on a 6-segment exchange).",
+            "capability cross-product enumeration + Hypothesis-drawn capability tuples with boundary payloads on real client/server stacks + model-based announcement histories (last I-Am per address); every LAN frame judged through independent NPCI/APCI decoders",
+            "Max-APDU pairs x segmentation-support pairs x max-segments, windows, with and without I-Am knowledge, crossed with payload lengths at every boundary the pair implies, are run between real stacks; every frame on the LAN is decoded independently and must respect the max-APDU / segmented-response-accepted / max-segments announced in the request (responses) or in the I-Am (requests); a message that does not fit must end in an abort with a fitting reason, never silence; window fields must stay in 1..127 and within the peer's proposal, also on the negative-ack path (single drop/duplicate faults on a 6-segment exchange). Histories of I-Ams from devices that move among addresses and change their limits, mixed with requests from and to those addresses, are judged against what each address announced last.",
             "Quick tier draws capability tuples with Hypothesis plus a deterministic core; the full cross product of all dimensions is not enumerated. APDU length is what follows the NPCI."),
     "C11": ("exploration",
-            "model-based operation histories (Hypothesis lists, shrinkable) on real client/server stacks with a spoofing attacker node; oracle = token model of live (peer, invoke ID) pairs",
+            "model-based operation histories (Hypothesis lists, shrinkable) on real client/server stacks with a spoofing attacker node, incl. IOCB requests chained from completion callbacks; oracle = token model of live (peer, invoke ID) pairs",
             "Two real client stacks and up to four server stacks whose applications answer only on command are driven by generated histories of submissions (library and application-chosen invoke IDs, deliberate collisions), out-of-order answers, verbatim re-injection of earlier replies, forged acks/errors/segment-acks/aborts from right and wrong peer addresses with live, foreign and completed IDs, and time steps around the APDU timeout; bursts of up to 40 outstanding requests and >256 sequential requests (wrap-around) are included. A token model decides that no live ID is reused per peer, every confirmation belongs to a live (peer, ID) and carries a payload that a reply from that peer with that ID really carried, nothing is delivered for finished transactions, each request is confirmed exactly once and indicated exactly once at the server, and equal IDs from two clients are served independently.",
             "Client APDU timeout < server application timeout by construction; a forged reply with the right address and ID is (correctly) indistinguishable from the real one; reuse of an ID the server still processes is excused as a duplicate by design."),
     "C10": ("exploration",
